@@ -216,10 +216,10 @@ func discharge(obls []*Obligation, timeoutMs int) {
 		wg.Add(1)
 		go func() {
 			defer wg.Done()
-			o.Res = solveCached(text, timeoutMs)
+			o.Res = solveCached(text, timeoutMs, o.Name)
 			if o.Res.Status != "unsat" && fullText != "" {
 				// the slice may have dropped a contradiction that makes the path infeasible: retry unsliced
-				o.Res = solveCached(fullText, timeoutMs)
+				o.Res = solveCached(fullText, timeoutMs, o.Name)
 				text = fullText
 			}
 			if o.Res.Status == "unknown" || o.Res.Status == "error" {
@@ -421,7 +421,7 @@ func writeQuery(text string) string {
 	return file
 }
 
-func solveCached(text string, timeoutMs int) SolverResult {
+func solveCached(text string, timeoutMs int, hint ...string) SolverResult {
 	solveCacheMu.Lock()
 	e := solveCache[text]
 	if e == nil {
@@ -429,7 +429,11 @@ func solveCached(text string, timeoutMs int) SolverResult {
 		solveCache[text] = e
 	}
 	solveCacheMu.Unlock()
-	e.once.Do(func() { e.res = Solve(text, timeoutMs) })
+	h := ""
+	if len(hint) > 0 {
+		h = hint[0]
+	}
+	e.once.Do(func() { e.res = SolveHint(text, timeoutMs, h) })
 	return e.res
 }
 
